@@ -72,7 +72,8 @@ def model_ops(ops):
 
 def check_history(ctx, fw, use_cache, ops, tag):
     outs, a = run_history(fw, use_cache, ops)
-    mod = ctx.model.call("clientstate_run", {"cache": use_cache, "clears_old": a.clears_old, "expires_in": 3600, "sessions": 2, "ops": model_ops(ops)})
+    mod = ctx.model.call("clientstate_run", {"cache": use_cache, "clears_old": a.clears_old, "expires_in": 3600, "sessions": 2,
+                                             "oauth1": sorted(k for k, o in CA.PROVIDERS.items() if o.get("oauth1")), "ops": model_ops(ops)})
     case = {"framework": fw, "cache": use_cache, "ops": ops}
     ctx.case(case, json.dumps(case, sort_keys=True), "%s:%s:%s" % (fw, "cache" if use_cache else "session", tag))
     # canonical form of the implementation's outputs, in the model's vocabulary
